@@ -29,7 +29,7 @@ class ProgGen(object):
             p_background=0.4, p_rule_background=0.4, p_outline=0.3, p_tag=0.35, p_wip=0.08,
             p_nonpass=0.3, outcomes=OUTCOMES, p_async=0.15, p_param_tag=0.3, p_table=0.1, p_doc=0.1,
             p_desc=0.15, tags=TAGS, allow_empty_containers=False, p_stepless=0.05, p_bg_param=0.0,
-            weights=None, p_empty_examples=0.15,
+            weights=None, p_empty_examples=0.15, outline_min_rows=0,
         )
         self.o.update(opts)
         self.ids = Counter()
@@ -151,6 +151,14 @@ class ProgGen(object):
                 rows = [[b, a] for a, b in rows]
             examples.append({"tags": self.tags(), "name": "E%d" % (ei + 1) if r.random() < 0.8 else "",
                              "header": header, "rows": rows})
+        if o.get("outline_min_rows", 0) and sum(len(e["rows"]) for e in examples) < o["outline_min_rows"]:
+            # at least one data row somewhere (an outline without any row is a childless element), the other Examples
+            # sections may stay header-only
+            e = r.choice(examples)
+            v = "%sv%d" % (name.lower(), self.ids.next())
+            tagv = r.choice(o["tags"])
+            e["rows"].append([v, tagv] if e["header"] == ["x", "t"] else [tagv, v])
+            values.append(v)
         extra = []
         if r.random() < o["p_param_tag"]:
             extra.append(r.choice(["<t>", "p.<t>"]))
